@@ -5,90 +5,151 @@ by a retrying client and by the workload, TTL expiry, tiny max_entries, cleanup 
 batches, relay latency → lag), Saga (2–4 steps on contended services, one unreliable step that times out →
 compensations in reverse order, concurrent instances) and Sidecar (rate limit, request timeouts → retries with
 backoff → circuit opens / half-opens / closes).  Backends are small harness entities that hold a library
-`Resource` (capacity 1–2) while they work, so requests contend.  `parts` selects the sub-scenarios of a run."""
+`Resource` (capacity 1–2) while they work, so requests contend.  `parts` selects the sub-scenarios of a run.
+
+Configuration coverage (widened):
+  * every constructor parameter: APIGateway(routes, auth_latency incl. 0, auth_failure_rate 0 / between / 1,
+    route_extractor default and custom), RouteConfig(backends 0..4, every rate-limit policy incl. None and
+    AdaptivePolicy, auth_required drawn per route, timeout None / shorter / longer than the backend latency),
+    IdempotencyStore(ttl, max_entries 1 .. library default, cleanup_interval — TTL shorter than the backend latency,
+    cleanup interval longer than the TTL and longer than the run), OutboxRelay(poll_interval, batch_size 1 .. above
+    the default 100 with more than 100 entries pending, relay_latency 0 .. so large that one cycle outlasts the
+    poll interval), Saga(1..5 steps, on_complete with / without callback; SagaStep timeouts None / shorter / longer
+    than the step latency, timeout on the first step, shared compensation target), Sidecar(all ten parameters
+    incl. rate_limit_queue_capacity; retry_base_delay 0 / smaller / larger than request_timeout; circuit timeout
+    shorter and longer than the request timeout; thresholds 1..6; max_retries 0..5);
+  * the rate-limit policies get their own drawn parameters (bucket capacity, initial tokens 0 / partial / full,
+    window sizes from `dur_ms`);
+  * all durations from `dur_ms` (lossy values, 1-4 decimals); absolute burst times as well;
+  * load regimes per part: light, sustained overload (arrival rate far above the backend capacity; the backend's
+    Resource queue grows for the whole run), bursts of many same-instant requests;
+  * a bank of Sidecars (different timeouts / backoffs / policies) fed by the same source in ONE run;
+  * occasional long run (8-12 s).
+"""
 from __future__ import annotations
 
 import random
 
-from hv.scenarios.base import T, seed_all, stats_of, sub_seed
+from hv.scenarios.base import T, dur_ms, seed_all, size_over, stats_of, sub_seed
 
 NAME = "microservice"
 MODEL = None
 COMPONENTS = ["APIGateway", "RouteConfig", "IdempotencyStore", "OutboxRelay", "Saga", "SagaStep", "Sidecar",
-              "TokenBucketPolicy", "LeakyBucketPolicy", "SlidingWindowPolicy", "FixedWindowPolicy", "Resource",
-              "Source", "Sink"]
+              "TokenBucketPolicy", "LeakyBucketPolicy", "SlidingWindowPolicy", "FixedWindowPolicy", "AdaptivePolicy",
+              "Resource", "Source", "Sink"]
 
 PARTS = ["gateway", "idem", "outbox", "saga", "sidecar"]
-POLICIES = [None, "token", "leaky", "sliding", "fixed"]
+POLICIES = [None, "token", "leaky", "sliding", "fixed", "adaptive"]
 
 
 def _backend_cfg(rng):
-    return {"lat_ms": rng.randint(2, 30), "exp": rng.random() < 0.5, "slow_pct": rng.choice([0, 5, 20, 50]),
-            "slow_ms": rng.choice([80, 200, 1000]), "cap": rng.choice([None, 1, 2])}
+    return {"lat_ms": dur_ms(rng, 0.1, rng.choice([10, 30, 120]), zero=True), "exp": rng.random() < 0.5,
+            "slow_pct": rng.choice([0, 5, 20, 50, 100]),
+            "slow_ms": dur_ms(rng, 40, rng.choice([200, 1000, 2500])), "cap": rng.choice([None, 1, 2])}
+
+
+def _pol_params(rng):
+    return {"cap": rng.choice([None, 1, 3, 40]), "init": rng.choice([None, None, 0, 0.5, 2]),
+            "win_ms": rng.choice([None, dur_ms(rng, 5, 1500)]), "step": rng.choice([None, 0.5, 5])}
+
+
+def _rate(rng, light, long):
+    """arrival rate of one part: light load, or sustained overload (well above any backend capacity)"""
+    if long:
+        return rng.choice([5, 10, 20])
+    return rng.choice([200, 300, 500]) if rng.random() < 0.25 else rng.choice(light)
+
+
+def _gen_sidecar(rng, long):
+    timeout = dur_ms(rng, 1, rng.choice([30, 120, 1500]))
+    return {
+        "rate": _rate(rng, [20, 50, 100], long),
+        "policy": rng.choice(POLICIES),
+        "pol_params": _pol_params(rng),
+        "limit": rng.choice([1, 10, 30, 100, 1000]),
+        "queue_cap": rng.choice([None, 0, 1, 1000]),
+        "fail_thr": rng.choice([1, 1, 2, 3, 4, 6]),
+        "succ_thr": rng.choice([1, 1, 2, 3, 5]),
+        "circuit_ms": dur_ms(rng, 5, rng.choice([100, 1000, 3000])),
+        "timeout_ms": timeout,
+        "max_retries": rng.choice([0, 1, 2, 3, 5]),
+        # base delay of the exponential backoff: 0, smaller and larger than the request timeout
+        "backoff_ms": rng.choice([0, dur_ms(rng, 0.1, max(0.2, timeout)), dur_ms(rng, timeout, 4 * timeout + 50)]),
+        "backend": _backend_cfg(rng),
+    }
 
 
 def gen_cfg(rng):
-    k = rng.randint(2, len(PARTS))
+    long = rng.random() < 0.12
+    end = rng.choice([8.0, 10.0, 12.0]) if long else rng.choice([2.0, 3.0, 4.0])
+    end_ms = int(end * 1000)
+    k = rng.randint(1, len(PARTS))
     parts = sorted(rng.sample(PARTS, k))
-    n_steps = rng.randint(2, 4)
+    n_steps = rng.randint(1, 5)
+    bursts = [[dur_ms(rng, 50, end_ms - 900), rng.choice(parts), rng.choice([5, 20, 60, 150])]
+              for _ in range(rng.choice([0, 0, 1, 2, 3]))]
+    ob_rate = _rate(rng, [20, 50, 100], long)
+    saga_to = []
+    for _ in range(n_steps):
+        saga_to.append(rng.choice([None, dur_ms(rng, 1, 60), dur_ms(rng, 20, 400), dur_ms(rng, 400, 2500)]))
     return {
-        "end": rng.choice([2.0, 3.0, 4.0]),
+        "end": end,
         "parts": parts,
         "poisson": rng.random() < 0.5,
+        "bursts": bursts,
         "gateway": {
-            "rate": rng.choice([50, 100, 200]),
+            "rate": _rate(rng, [50, 100, 200], long),
             "weights": [rng.randint(1, 5), rng.randint(1, 5), rng.randint(0, 3), rng.randint(0, 2), rng.randint(0, 2)],
-            "auth_ms": rng.choice([0, 1, 5]),
-            "auth_fail_pct": rng.choice([0, 10, 30]),
+            "auth_ms": dur_ms(rng, 0.1, rng.choice([5, 40]), zero=True),
+            "auth_fail_pct": rng.choice([0, 10, 30, 100]),
+            "auth": [rng.random() < 0.7, rng.random() < 0.3, rng.random() < 0.7],
+            "extractor": rng.choice(["default", "default", "custom"]),
             "policy": [rng.choice(POLICIES) for _ in range(3)],
-            "limit": rng.choice([5, 20, 50]),
-            "n_backends": rng.randint(1, 3),
-            "timeout_ms": rng.choice([None, 10, 40, 100]),
+            "pol_params": [_pol_params(rng) for _ in range(3)],
+            "limit": rng.choice([1, 5, 20, 50, 500]),
+            "n_backends": rng.randint(1, 4),
+            "timeout_ms": rng.choice([None, dur_ms(rng, 1, 40), dur_ms(rng, 40, 1500)]),
+            "pay_timeout_ms": rng.choice([None, 50, dur_ms(rng, 1, 1200)]),
             "backend": _backend_cfg(rng),
             "to_idem": rng.random() < 0.5,
-            "n_users": rng.randint(3, 40),
+            "n_users": rng.randint(1, 40),
         },
         "idem": {
-            "rate": rng.choice([20, 50, 100]),
-            "n_keys": rng.choice([5, 20, 1000]),
-            "ttl_ms": rng.choice([50, 200, 1000]),
-            "max_entries": rng.choice([2, 5, 100]),
-            "cleanup_ms": rng.choice([20, 100, 500]),
-            "client_timeout_ms": rng.choice([10, 30, 100]),
-            "max_retries": rng.randint(0, 3),
-            "none_key_pct": rng.choice([0, 10]),
+            "rate": _rate(rng, [20, 50, 100], long),
+            "n_keys": rng.choice([1, 5, 20, 60, 1000]),
+            "ttl_ms": dur_ms(rng, 1, rng.choice([60, 300, 2500])),
+            "max_entries": rng.choice([1, 2, 3, 5, 8, 100, None]),                 # None: library default (10 000)
+            "cleanup_ms": dur_ms(rng, 5, rng.choice([100, 600, 2500])) if rng.random() < 0.9 else dur_ms(rng, end_ms, 2 * end_ms),
+            "client_timeout_ms": dur_ms(rng, 1, rng.choice([30, 150, 1200])),
+            "max_retries": rng.randint(0, 4),
+            "none_key_pct": rng.choice([0, 0, 10, 100]),
             "backend": _backend_cfg(rng),
         },
         "outbox": {
-            "rate": rng.choice([20, 50, 100]),
-            "proc_ms": rng.randint(1, 10),
-            "poll_ms": rng.choice([10, 50, 100, 250]),
-            "batch": rng.choice([1, 3, 10, 100]),
+            "rate": ob_rate,
+            "proc_ms": dur_ms(rng, 0.1, 20, zero=True),
+            "poll_ms": dur_ms(rng, 5 if ob_rate >= 200 else 1, rng.choice([60, 300, 1500])),
+            "batch": size_over(rng, [1, 3, 10], 100),
             "relay_us": rng.choice([0, 100, 1000, 5000]),
-            "prime": rng.choice(["first_write", "kick", "first_write+kick"]),
-            "kick_rate": rng.choice([2, 5, 10]),
-            "writes": rng.randint(1, 3),
+            "relay_ms": rng.choice([None, dur_ms(rng, 0.01, 5, zero=True), dur_ms(rng, 5, 200)]),
+            "prime": rng.choice(["first_write", "kick", "first_write+kick", "every_write"]),
+            "kick_rate": rng.choice([2, 5, 10, 100]),
+            # every poll cycle scans all entries ever written: keep rate x writes below ~1000 entries per second
+            "writes": rng.choice([1, 2]) if ob_rate >= 200 else rng.choice([1, 1, 2, 3, 8]),
         },
         "saga": {
-            "rate": rng.choice([5, 10, 20, 40]),
+            "rate": rng.choice([5, 10, 20]) if long else (rng.choice([100, 200]) if rng.random() < 0.2
+                                                        else rng.choice([5, 10, 20, 40])),
             "n_steps": n_steps,
-            "timeout_ms": [rng.choice([None, 20, 50, 150]) for _ in range(n_steps)],
+            "timeout_ms": saga_to,
             "bad_step": rng.randint(0, n_steps - 1),
+            "force_bad": rng.random() < 0.8,
             "backends": [_backend_cfg(rng) for _ in range(n_steps)],
             "shared_comp": rng.random() < 0.3,
+            "callback": rng.random() < 0.8,
         },
-        "sidecar": {
-            "rate": rng.choice([20, 50, 100]),
-            "policy": rng.choice(POLICIES),
-            "limit": rng.choice([10, 30, 100]),
-            "fail_thr": rng.randint(1, 4),
-            "succ_thr": rng.randint(1, 3),
-            "circuit_ms": rng.choice([100, 300, 1000]),
-            "timeout_ms": rng.choice([10, 25, 60]),
-            "max_retries": rng.randint(0, 3),
-            "backoff_ms": rng.choice([0, 5, 20, 50]),
-            "backend": _backend_cfg(rng),
-        },
+        "sidecar": _gen_sidecar(rng, long),
+        "sidecars_extra": [_gen_sidecar(rng, long) for _ in range(rng.choice([0, 0, 1, 2]))],
     }
 
 
@@ -98,7 +159,7 @@ def build(cfg, seed):
         APIGateway, IdempotencyStore, OutboxRelay, RouteConfig, Saga, SagaStep, Sidecar,
     )
     from happysimulator.components.rate_limiter.policy import (
-        FixedWindowPolicy, LeakyBucketPolicy, SlidingWindowPolicy, TokenBucketPolicy,
+        AdaptivePolicy, FixedWindowPolicy, LeakyBucketPolicy, SlidingWindowPolicy, TokenBucketPolicy,
     )
     from happysimulator.components.resource import Resource
     from happysimulator.core.entity import Entity
@@ -116,17 +177,28 @@ def build(cfg, seed):
     entities = [sink]
     sources = []
     pre = []
+    providers = {}
     obs = {"sink": lambda: {"n": sink.events_received, "lat": sink.latency_stats()}}
 
-    def policy(kind, limit):
+    def policy(kind, limit, pp=None):
+        pp = pp or {}
+        win = pp.get("win_ms")
         if kind == "token":
-            return TokenBucketPolicy(capacity=float(limit), refill_rate=float(limit))
+            cap = pp.get("cap")
+            return TokenBucketPolicy(capacity=float(limit if cap is None else cap), refill_rate=float(limit),
+                                     initial_tokens=pp.get("init"))
         if kind == "leaky":
             return LeakyBucketPolicy(leak_rate=float(limit))
         if kind == "sliding":
-            return SlidingWindowPolicy(window_size_seconds=0.5, max_requests=max(1, limit // 2))
+            return SlidingWindowPolicy(window_size_seconds=0.5 if win is None else win / 1000.0,
+                                       max_requests=max(1, limit // 2))
         if kind == "fixed":
-            return FixedWindowPolicy(requests_per_window=max(1, limit // 4), window_size=0.25)
+            return FixedWindowPolicy(requests_per_window=max(1, limit // 4),
+                                     window_size=0.25 if win is None else win / 1000.0)
+        if kind == "adaptive":
+            return AdaptivePolicy(initial_rate=float(limit), min_rate=0.5, max_rate=float(limit) * 4,
+                                  increase_step=pp.get("step"), decrease_factor=0.5,
+                                  window_size=1.0 if win is None else win / 1000.0)
         return None
 
     class Backend(Entity):
@@ -154,7 +226,7 @@ def build(cfg, seed):
                 self.keys[key] = self.keys.get(key, 0) + 1
             bc = self.bc
             lat = bc["lat_ms"] / 1000.0
-            if bc["exp"]:
+            if bc["exp"] and lat > 0:
                 lat = max(0.0005, self.rng.expovariate(1.0 / lat))
             if not md.get("_saga_compensation") and self.rng.randrange(100) < bc["slow_pct"]:
                 lat = bc["slow_ms"] / 1000.0
@@ -171,9 +243,12 @@ def build(cfg, seed):
             return []
 
         def obs(self):
-            return {"actions": self.actions, "comp": self.compensations, "done": self.done,
-                    "dup_keys": sorted((k, v) for k, v in self.keys.items() if v > 1)[:20],
-                    "n_keys": len(self.keys)}
+            out = {"actions": self.actions, "comp": self.compensations, "done": self.done,
+                   "dup_keys": sorted((k, v) for k, v in self.keys.items() if v > 1)[:20],
+                   "n_keys": len(self.keys)}
+            if self.res is not None:
+                out["res"] = stats_of(self.res)()
+            return out
 
     def add_backend(name, bc, reply=True):
         b = Backend(name, bc, reply)
@@ -193,9 +268,11 @@ def build(cfg, seed):
             self.n += 1
             return self.fn(time, self.n, self.rng)
 
-    def src(rate, name, provider, until=None):
+    def src(rate, name, provider, until=None, part=None):
         mk = Source.poisson if cfg["poisson"] else Source.constant
         sources.append(mk(rate=rate, name=name, event_provider=provider, stop_after=stop if until is None else until))
+        if part is not None:
+            providers[part] = provider
 
     idem_store = None
 
@@ -203,10 +280,12 @@ def build(cfg, seed):
     if "idem" in parts:
         c = cfg["idem"]
         pay = add_backend("payment", c["backend"])
+        idem_kw = {}
+        if c["max_entries"] is not None:
+            idem_kw["max_entries"] = c["max_entries"]
         idem_store = IdempotencyStore("idem", target=pay,
                                       key_extractor=lambda e: e.context.get("metadata", {}).get("idempotency_key"),
-                                      ttl=c["ttl_ms"] / 1000.0, max_entries=c["max_entries"],
-                                      cleanup_interval=c["cleanup_ms"] / 1000.0)
+                                      ttl=c["ttl_ms"] / 1000.0, cleanup_interval=c["cleanup_ms"] / 1000.0, **idem_kw)
 
         class RetryingClient(Entity):
             """retries the same idempotency key when no completion arrives in time (idempotency_under_retries.py)"""
@@ -259,9 +338,10 @@ def build(cfg, seed):
             key = None if rng.randrange(100) < c["none_key_pct"] else f"user-{rng.randrange(c['n_keys'])}"
             return [Event(time=time, event_type="pay", target=client, context={"metadata": {"idempotency_key": key}})]
 
-        src(c["rate"], "src-idem", Provider("idem", mk_pay))
+        src(c["rate"], "src-idem", Provider("idem", mk_pay), part="idem")
         obs["idem"] = stats_of(idem_store)
         obs["idem.x"] = lambda: {"size": idem_store.cache_size, "in_flight": idem_store.in_flight_count,
+                                 "target": idem_store.target.name,
                                  "sent": client.sent, "retries": client.retries, "completed": client.completed,
                                  "gave_up": client.gave_up, "open": len(client.in_flight),
                                  "hook_done": client.hook_done, "late": client.late_replies}
@@ -269,22 +349,31 @@ def build(cfg, seed):
     # ------------------------------------------------------------------ API gateway
     if "gateway" in parts:
         g = cfg["gateway"]
+        pps = g.get("pol_params") or [None, None, None]
+        auth = g.get("auth") or [True, False, True]
+        pay_to = g.get("pay_timeout_ms", 50)
         users = [add_backend(f"users-{i}", g["backend"]) for i in range(g["n_backends"])]
         orders = add_backend("orders-0", dict(g["backend"], slow_pct=max(g["backend"]["slow_pct"], 20)))
         pay_backends = [idem_store] if (idem_store is not None and g["to_idem"]) else [add_backend("gw-pay", g["backend"])]
         routes = {
-            "/api/users": RouteConfig(name="users", backends=users, rate_limit_policy=policy(g["policy"][0], g["limit"]),
-                                      auth_required=True),
+            "/api/users": RouteConfig(name="users", backends=users,
+                                      rate_limit_policy=policy(g["policy"][0], g["limit"], pps[0]),
+                                      auth_required=auth[0]),
             "/api/orders": RouteConfig(name="orders", backends=[orders],
-                                       rate_limit_policy=policy(g["policy"][1], g["limit"]), auth_required=False,
+                                       rate_limit_policy=policy(g["policy"][1], g["limit"], pps[1]),
+                                       auth_required=auth[1],
                                        timeout=None if g["timeout_ms"] is None else g["timeout_ms"] / 1000.0),
             "/api/pay": RouteConfig(name="pay", backends=pay_backends,
-                                    rate_limit_policy=policy(g["policy"][2], g["limit"]), auth_required=True,
-                                    timeout=0.05),
+                                    rate_limit_policy=policy(g["policy"][2], g["limit"], pps[2]),
+                                    auth_required=auth[2],
+                                    timeout=None if pay_to is None else pay_to / 1000.0),
             "/api/empty": RouteConfig(name="empty", backends=[], auth_required=False),
         }
+        gw_kw = {}
+        if g.get("extractor", "default") == "custom":
+            gw_kw["route_extractor"] = lambda e: e.context.get("metadata", {}).get("route") or e.context.get("path")
         gateway = APIGateway("gateway", routes=routes, auth_latency=g["auth_ms"] / 1000.0,
-                             auth_failure_rate=g["auth_fail_pct"] / 100.0)
+                             auth_failure_rate=g["auth_fail_pct"] / 100.0, **gw_kw)
         entities.append(gateway)
         route_keys = ["/api/users", "/api/orders", "/api/pay", "/api/empty", "/api/nope"]
 
@@ -294,13 +383,17 @@ def build(cfg, seed):
             md = {"route": r, "user": user}
             if r == "/api/pay":
                 md["idempotency_key"] = f"{user}/{n // 3}"
+            ctx = {"created_at": time, "metadata": md}
             if r == "/api/nope" and rng.random() < 0.3:
-                md = {}
-            return [Event(time=time, event_type="http", target=gateway, context={"created_at": time, "metadata": md})]
+                ctx["metadata"] = {}
+                ctx["path"] = "/api/orders"        # only the custom extractor finds a route here
+            return [Event(time=time, event_type="http", target=gateway, context=ctx)]
 
-        src(g["rate"], "src-gw", Provider("gw", mk_req))
+        src(g["rate"], "src-gw", Provider("gw", mk_req), part="gateway")
         obs["gateway"] = stats_of(gateway)
-        obs["gateway.x"] = lambda: {"routes": sorted(gateway.routes)}
+        obs["gateway.x"] = lambda: {"routes": sorted(gateway.routes),
+                                    "auth": [[k, r.auth_required, r.timeout, len(r.backends)]
+                                             for k, r in sorted(gateway.routes.items())]}
 
     # ------------------------------------------------------------------ Outbox relay
     if "outbox" in parts:
@@ -316,8 +409,9 @@ def build(cfg, seed):
                 return None
 
         mq = Collector()
+        relay_s = o["relay_us"] / 1e6 if o.get("relay_ms") is None else o["relay_ms"] / 1000.0
         outbox = OutboxRelay("outbox", downstream=mq, poll_interval=o["poll_ms"] / 1000.0, batch_size=o["batch"],
-                             relay_latency=o["relay_us"] / 1e6)
+                             relay_latency=relay_s)
 
         class OrderService(Entity):
             def __init__(self):
@@ -330,6 +424,9 @@ def build(cfg, seed):
                 yield o["proc_ms"] / 1000.0
                 for j in range(o["writes"]):
                     outbox.write({"order_id": f"order-{self.n}", "part": j, "event_type": "order_created"})
+                if o["prime"] == "every_write":
+                    # the transactional-outbox idiom "write, then nudge the relay": any non-poll event primes it
+                    return [Event(time=self.now, event_type="written", target=outbox)]
                 if "first_write" in o["prime"] and not self.primed:
                     self.primed = True
                     return [outbox.prime_poll()]
@@ -338,13 +435,14 @@ def build(cfg, seed):
         osvc = OrderService()
         entities += [mq, outbox, osvc]
         src(o["rate"], "src-outbox", Provider("ob", lambda time, n, rng: [
-            Event(time=time, event_type="new_order", target=osvc)]))
+            Event(time=time, event_type="new_order", target=osvc)]), part="outbox")
         if "kick" in o["prime"]:
             # "sending any event to the outbox will auto-prime" (OutboxRelay.prime_poll docstring)
             sources.append(Source.constant(rate=o["kick_rate"], target=outbox, event_type="kick", name="src-kick",
                                            stop_after=stop))
         obs["outbox"] = stats_of(outbox)
         obs["outbox.x"] = lambda: {"pending": outbox.pending_count, "total": outbox.total_entries,
+                                   "downstream": outbox.downstream.name,
                                    "avg_lag": outbox.stats.avg_relay_lag, "orders": osvc.n, "got": len(mq.ids),
                                    "in_order": mq.ids == sorted(mq.ids), "dups": len(mq.ids) - len(set(mq.ids)),
                                    "head": mq.ids[:10]}
@@ -352,20 +450,22 @@ def build(cfg, seed):
     # ------------------------------------------------------------------ Saga
     if "saga" in parts:
         s = cfg["saga"]
-        names = ["inventory", "payment-svc", "shipping", "notify"]
+        names = ["inventory", "payment-svc", "shipping", "notify", "ledger"]
         svcs = []
+        force_bad = s.get("force_bad", True)
         for i in range(s["n_steps"]):
             bc = dict(s["backends"][i])
-            if i == s["bad_step"]:
-                bc["slow_pct"] = max(bc["slow_pct"], 30)
-            else:
-                bc["slow_pct"] = min(bc["slow_pct"], 5)
+            if force_bad:
+                if i == s["bad_step"]:
+                    bc["slow_pct"] = max(bc["slow_pct"], 30)
+                else:
+                    bc["slow_pct"] = min(bc["slow_pct"], 5)
             svcs.append(add_backend(names[i], bc, reply=False))
         comp = add_backend("compensator", s["backends"][0], reply=False) if s["shared_comp"] else None
         steps = []
         for i in range(s["n_steps"]):
             to = s["timeout_ms"][i]
-            if i == s["bad_step"] and to is None:
+            if force_bad and i == s["bad_step"] and to is None:
                 to = 40
             steps.append(SagaStep(name=f"step-{names[i]}", action_target=svcs[i], action_event_type=f"do_{names[i]}",
                                   compensation_target=comp or svcs[i], compensation_event_type=f"undo_{names[i]}",
@@ -373,9 +473,12 @@ def build(cfg, seed):
         outcomes = []
 
         def on_saga_done(saga_id, state, results):
-            outcomes.append([saga_id, state.name, [[r.step_name, r.success] for r in results]])
+            outcomes.append([saga_id, state.name, [[r.step_name, r.success,
+                                                    None if r.started_at is None else r.started_at.nanoseconds,
+                                                    None if r.completed_at is None else r.completed_at.nanoseconds]
+                                                   for r in results]])
 
-        saga = Saga("order-saga", steps=steps, on_complete=on_saga_done)
+        saga = Saga("order-saga", steps=steps, on_complete=on_saga_done if s.get("callback", True) else None)
         entities.append(saga)
         hook_fired = []
 
@@ -385,40 +488,75 @@ def build(cfg, seed):
             ev.add_completion_hook(lambda t, n=n: hook_fired.append([n, t.nanoseconds]) or None)
             return [ev]
 
-        src(s["rate"], "src-saga", Provider("saga", mk_order))
+        src(s["rate"], "src-saga", Provider("saga", mk_order), part="saga")
         obs["saga"] = stats_of(saga)
+
+        def saga_states():
+            out = {}
+            for i in range(1, saga.stats.sagas_started + 2):
+                st = saga.get_instance_state(i)
+                k = "none" if st is None else st.name
+                out[k] = out.get(k, 0) + 1
+            return sorted(out.items())
+
         obs["saga.x"] = lambda: {"active": saga.active_instances, "outcomes": outcomes, "hooks": hook_fired,
+                                 "steps": [[st.name, st.timeout] for st in saga.steps], "states": saga_states(),
                                  "state1": (saga.get_instance_state(1).name if saga.get_instance_state(1) else None)}
 
     # ------------------------------------------------------------------ Sidecar
     if "sidecar" in parts:
-        c2 = cfg["sidecar"]
-        svc = add_backend("mesh-backend", c2["backend"])
-        sidecar = Sidecar("sidecar", target=svc, rate_limit_policy=policy(c2["policy"], c2["limit"]),
-                          circuit_failure_threshold=c2["fail_thr"], circuit_success_threshold=c2["succ_thr"],
-                          circuit_timeout=c2["circuit_ms"] / 1000.0, request_timeout=c2["timeout_ms"] / 1000.0,
-                          max_retries=c2["max_retries"], retry_base_delay=c2["backoff_ms"] / 1000.0)
-        entities.append(sidecar)
+        bank = [cfg["sidecar"], *cfg.get("sidecars_extra", [])]
+        sidecars = []
         states = []
+        for j, c2 in enumerate(bank):
+            sfx = "" if j == 0 else f"-{j}"
+            svc = add_backend("mesh-backend" + sfx, c2["backend"])
+            kw = {}
+            if c2.get("queue_cap") is not None:
+                kw["rate_limit_queue_capacity"] = c2["queue_cap"]
+            sc = Sidecar("sidecar" + sfx, target=svc,
+                         rate_limit_policy=policy(c2["policy"], c2["limit"], c2.get("pol_params")),
+                         circuit_failure_threshold=c2["fail_thr"], circuit_success_threshold=c2["succ_thr"],
+                         circuit_timeout=c2["circuit_ms"] / 1000.0, request_timeout=c2["timeout_ms"] / 1000.0,
+                         max_retries=c2["max_retries"], retry_base_delay=c2["backoff_ms"] / 1000.0, **kw)
+            entities.append(sc)
+            sidecars.append(sc)
+            states.append([])
+            obs["sidecar" + sfx] = stats_of(sc)
+            obs["sidecar" + sfx + ".x"] = (lambda sc=sc, j=j: {"circuit": sc.circuit_state, "states": states[j],
+                                                               "target": sc.target.name})
+        sidecar = sidecars[0]
 
         class StateProbe(Entity):
             def handle_event(self, event):
-                st = sidecar.circuit_state
-                if not states or states[-1][1] != st:
-                    states.append([self.now.nanoseconds, st])
+                for j, sc in enumerate(sidecars):
+                    st = sc.circuit_state
+                    if not states[j] or states[j][-1][1] != st:
+                        states[j].append([self.now.nanoseconds, st])
                 return None
 
         probe = StateProbe("cb-probe")
         entities.append(probe)
         sources.append(Source.constant(rate=20, target=probe, event_type="probe", name="src-probe",
                                        stop_after=end - 0.1))
-        src(c2["rate"], "src-sidecar", Provider("sc", lambda time, n, rng: [
-            Event(time=time, event_type="rpc", target=sidecar,
-                  context={"created_at": time, "metadata": {"caller": f"user-{rng.randrange(7)}"}})]))
-        obs["sidecar"] = stats_of(sidecar)
-        obs["sidecar.x"] = lambda: {"circuit": sidecar.circuit_state, "states": states}
+
+        def mk_rpc(time, n, rng):
+            caller = f"user-{rng.randrange(7)}"
+            return [Event(time=time, event_type="rpc", target=sc,
+                          context={"created_at": time, "metadata": {"caller": caller}}) for sc in sidecars]
+
+        src(cfg["sidecar"]["rate"], "src-sidecar", Provider("sc", mk_rpc), part="sidecar")
 
     sim = Simulation(end_time=T(end), sources=sources, entities=entities)
+    # bursts: many same-instant requests into one part (the part's own request factory makes them)
+    for t_ms, part, n in cfg.get("bursts", []):
+        prov = providers.get(part)
+        if prov is None:
+            continue
+        t = Instant.from_seconds(t_ms / 1000.0)
+        for _ in range(n):
+            for ev in prov.get_events(t):
+                sim.schedule(ev)
     for f in pre:
         f(sim)
     return sim, obs
